@@ -2202,3 +2202,84 @@ def r_window_compacted(ctx, repo):
                       'every path): len(buffer) then over-states the look-ahead, the requested characters are not fetched and a '
                       'later read runs past the window - only for input delivered in pieces')
     return rule
+
+
+# --------------------------------------------------------------------------------------- R-YAMLOBJECT-LOADERS
+SAFE_LOADER_NAMES = {'SafeLoader', 'BaseLoader', 'CSafeLoader', 'CBaseLoader'}
+
+
+def r_yamlobject_loaders(ctx, repo):
+    rule = ctx.rule('R-YAMLOBJECT-LOADERS', 'YAMLObject.yaml_loader - the loaders every YAMLObject subclass registers its from_yaml on by '
+                                            'default - is a literal list of classes that contains none of the safe loaders: defining a '
+                                            'YAMLObject subclass never teaches safe_load a new tag')
+    c = repo.modules['__init__'].classes.get('YAMLObject')
+    vals = c.attrs.get('yaml_loader') if c else None
+    if not vals:
+        raise AnalysisError('YAMLObject.yaml_loader has vanished')
+    v = vals[-1]
+    if isinstance(v, ast.Name):
+        elts = [v]
+    elif isinstance(v, (ast.List, ast.Tuple)) and all(isinstance(e, ast.Name) for e in v.elts):
+        elts = list(v.elts)
+    else:
+        raise AnalysisError('YAMLObject.yaml_loader is not a literal list of class names: which loaders a YAMLObject subclass is '
+                            'registered on cannot be read from the source')
+    for e in elts:
+        if e.id in SAFE_LOADER_NAMES:
+            rule.fail('__init__.YAMLObject|yaml_loader|%s' % e.id, c.module.rel, e.lineno, 'YAMLObject', 'yaml_loader = [... %s ...]' % e.id,
+                      'every YAMLObject subclass registers its from_yaml constructor on %s by default: a safe load of a document '
+                      'with that tag then instantiates the class and applies document-chosen state to it' % e.id)
+        else:
+            rule.ok('%s:%d' % (c.module.rel, e.lineno), '%s is not a safe loader' % e.id)
+    return rule
+
+
+# --------------------------------------------------------------------------------------- R-NO-MODULE-GETATTR
+def r_no_module_getattr(ctx, repo):
+    rule = ctx.rule('R-NO-MODULE-GETATTR', 'no module of the package defines a module-level __getattr__ / __dir__ (PEP 562): reading an '
+                                           'attribute of an imported yaml module - which the full loader does for python/name tags - runs '
+                                           'no code and imports nothing')
+    n = 0
+    for m in repo.modules.values():
+        if m.kind != 'py':
+            continue
+        n += 1
+        bad = [s for s in m.tree.body if isinstance(s, (ast.FunctionDef, ast.AsyncFunctionDef)) and s.name in ('__getattr__', '__dir__')]
+        bad += [s for s in m.tree.body if isinstance(s, ast.Assign) and any(
+            isinstance(t, ast.Name) and t.id in ('__getattr__', '__dir__') for t in s.targets)]
+        for s in bad:
+            rule.fail('%s|module-getattr' % m.name, m.rel, s.lineno, m.name, 'def __getattr__',
+                      'module %s answers attribute look-ups with code: `getattr(module, name)` as done for !!python/name (and by any '
+                      'attribute read on the package) can then import modules or change module globals on behalf of the document' % m.name)
+        if not bad:
+            rule.ok(m.rel, 'plain module namespace')
+    if n < 10:
+        raise AnalysisError('only %d python modules inspected' % n)
+    return rule
+
+
+# ------------------------------------------------------------------------------------- R-PER-DOCUMENT-STORE
+def r_per_document_store(ctx, repo):
+    rule = ctx.rule('R-PER-DOCUMENT-STORE', 'every attribute Composer.compose_document stores on the composer is stored on every path through '
+                                            'it: nothing that one document sets (from its directives or content) is still there for the next')
+    f = _method(repo, 'composer.Composer', 'compose_document')
+    cfg = CFG(f.node)
+    sn = f.params[0]
+    by_attr = {}
+    for n in cfg.nodes:
+        if n.kind == 'stmt' and isinstance(n.ast, (ast.Assign, ast.AugAssign, ast.AnnAssign)):
+            tg = n.ast.targets if isinstance(n.ast, ast.Assign) else [n.ast.target]
+            for t in tg:
+                for e in (t.elts if isinstance(t, ast.Tuple) else [t]):
+                    if isinstance(e, ast.Attribute) and isinstance(e.value, ast.Name) and e.value.id == sn:
+                        by_attr.setdefault(e.attr, []).append(n)
+    if not by_attr:
+        raise AnalysisError('compose_document stores no attribute (self.anchors reset confirmed)')
+    for attr, nodes in sorted(by_attr.items()):
+        if all(cfg.guarded(x, nodes=nodes) for x in cfg.normal_exits()):
+            rule.ok(f.loc(nodes[0].ast), 'self.%s is set on every path' % attr)
+        else:
+            rule.fail('%s|%s' % (f.qualname, attr), f.module.rel, nodes[0].lineno, f.qualname, 'self.%s = ...' % attr,
+                      'self.%s is set for some documents only: a value taken from one document (its directive, its content) is '
+                      'still in force when the next document of the stream is composed' % attr)
+    return rule
